@@ -197,6 +197,13 @@ CommentEndsLine(s0) ==
       \/ (i < Len(s) /\ s[i+1][F_K] = CR)
       \/ (i + 1 < Len(s) /\ s[i+1][F_K] = WS /\ s[i+2][F_K] = CR)
 
+\* Lexically canonical (C08): what is written out is read back as the same tokens only if the zero-width blank-line
+\* marker stands alone on its line and no two whitespace tokens are adjacent (they would be read as one)
+Canonical(s) ==
+  /\ \A i \in 1..Len(s) : s[i][F_K] = BLANK => /\ (i = 1 \/ s[i-1][F_K] = CR)
+                                              /\ (i < Len(s) /\ s[i+1][F_K] = CR)
+  /\ \A i \in 1..(Len(s) - 1) : ~(s[i][F_K] = WS /\ s[i+1][F_K] = WS)
+
 (***************************************************************************)
 (* Effect classes (C03)                                                    *)
 (***************************************************************************)
